@@ -260,8 +260,10 @@ func (p *mpair) shutdown() {
 func randomChannels(r *rand.Rand, payload, minCap int) []chanSpec {
 	n := 1 + r.Intn(6)
 	var out []chanSpec
+	// channel ids are bytes: a third of the connections use ids of 0x80 and above (two bytes as a varint on the wire)
+	base := []int{0x20, 0x20, 0x90, 0xc8}[r.Intn(4)]
 	for i := 0; i < n; i++ {
-		s := chanSpec{ID: byte(0x20 + i*7 + r.Intn(7)), Priority: 1 + r.Intn(10), SendQ: 1 + r.Intn(4)}
+		s := chanSpec{ID: byte(base + i*7 + r.Intn(7)), Priority: 1 + r.Intn(10), SendQ: 1 + r.Intn(4)}
 		if r.Intn(4) == 0 {
 			s.Priority = []int{1, 1, 100, 1000}[r.Intn(4)]
 		}
